@@ -12,6 +12,9 @@ LEVEL = 'model_checking'
 def rowfunc(row):
     if row.get('boom'):
         raise ValueError('row function fails for row %d' % row['i'])
+    if row.get('wipe'):
+        row.clear()          # e.g. a function dropping null-valued keys that meets an all-null row: the row is now {}
+        return
     row['n'] += 1
 
 
@@ -64,11 +67,13 @@ def execute(cfg, prefix, on_point=None, line=False, seam='fork'):
             for k in range(R):
                 if cfg.get('boom', 0) >> k & 1:
                     rows[k]['boom'] = True
+                if cfg.get('wipe', 0) >> k & 1:
+                    rows[k]['wipe'] = True
             out = []
             if seam == 'fork':
                 for r in m.fork(upstream(rows), rowfunc, N, predicate):
                     out.append(r)
-                    s.delivered.append(r['i'])
+                    s.delivered.append(r.get('i', -1))
             elif seam == 'chain2':
                 # two parallelize stages alive at the same time (two producers, two fetchers, 2N workers)
                 for r in m.fork(m.fork(iter(rows), rowfunc, N, predicate), rowfunc2, N, predicate):
@@ -97,8 +102,12 @@ def expected(cfg, seam='fork'):
             r['boom'] = True
             if cfg['mask'] >> k & 1:
                 r['n'] = 0          # the function raised before touching the row: delivered once, unprocessed
+        if cfg.get('wipe', 0) >> k & 1:
+            r['wipe'] = True
+            if cfg['mask'] >> k & 1:
+                r = {}              # emptied by the row function: still a row, still delivered exactly once
         out.append(r)
-    return out
+    return sorted(out, key=lambda r: r.get('i', -1))
 
 
 def judge(cfg, s, result, exc, deadlock, seam='fork'):
@@ -112,7 +121,7 @@ def judge(cfg, s, result, exc, deadlock, seam='fork'):
     if exc is not None:
         v.append(('raises', 'fork raised %s: %s' % (type(exc).__name__, str(exc)[:100])))
         return v
-    got = sorted(result, key=lambda r: r['i'])
+    got = sorted(result, key=lambda r: r.get('i', -1))
     if got != expected(cfg, seam):
         v.append(('delivery', 'delivered %r, expected (in any order) %r' % (result, expected(cfg, seam))))
     if s.timeouts_fired:
@@ -132,7 +141,7 @@ def dup_invariant(s):
     for q in s.queues:
         for r in q.peek_rows():
             if isinstance(r, dict) and 'i' in r:
-                ids.append(r['i'])
+                ids.append(r.get('i', -1))
     return len(ids) != len(set(ids))
 
 
@@ -171,7 +180,7 @@ def explore_stateful(cfg, max_exec=None, seam='fork'):
             continue
         st['maximal'] += 1
         if result is not None:
-            st['orders'].add(tuple(r['i'] for r in result))
+            st['orders'].add(tuple(r.get('i', -1) for r in result))
         for oracle, what in judge(cfg, s, result, exc, deadlock, seam):
             st['viol'].append((oracle, what, [t[1] for t in s.trace]))
     st['states'] = len(seen)
@@ -200,7 +209,7 @@ def explore_bounded(cfg, bound, max_exec=None, line=False, seam='fork', cost_kin
         st['transitions'] += len(s.trace)
         st['maxdepth'] = max(st['maxdepth'], len(s.trace))
         if result is not None:
-            st['orders'].add(tuple(r['i'] for r in result))
+            st['orders'].add(tuple(r.get('i', -1) for r in result))
         if dupflag:
             st['viol'].append(('duplicate-in-flight', 'a row id is present twice among queues/delivered rows',
                                [t[1] for t in s.trace[:dupflag[0]]]))
@@ -334,6 +343,9 @@ def tasks(tier):
             out.append({'cfg': {'N': N_, 'R': R_, 'mask': mask_, 'feeder': True}, 'mode': 'stateful', 'max_exec': 60000})
         for N_, R_, mask_, boom_ in ((1, 2, 3, 1), (1, 3, 7, 2), (2, 2, 3, 3), (2, 3, 5, 4)):
             out.append({'cfg': {'N': N_, 'R': R_, 'mask': mask_, 'boom': boom_}, 'mode': 'stateful'})
+        # rows that come back from the workers without any field
+        for N_, R_, mask_, wipe_ in ((1, 2, 3, 1), (1, 3, 7, 2), (1, 3, 5, 1), (2, 2, 3, 2), (2, 3, 6, 2)):
+            out.append({'cfg': {'N': N_, 'R': R_, 'mask': mask_, 'wipe': wipe_}, 'mode': 'stateful'})
         out.append({'cfg': {'N': 1, 'R': 1, 'mask': 1}, 'mode': 'stateful', 'seam': 'chain2'})
         out.append({'cfg': {'N': 1, 'R': 2, 'mask': 3}, 'mode': 'stateful', 'seam': 'chain2'})
         out.append({'cfg': {'N': 1, 'R': 1, 'mask': 1}, 'mode': 'line-dev', 'bound': 1, 'seam': 'chain2'})
